@@ -69,16 +69,23 @@ def constAndOther (guard : Nat → Nat → Bool) (l r : Expression) : Option (Na
     | .Const b' x' => if guard b' x' then some (b', x', l) else none
     | _ => none
 
+/-- `matches!(op, IntOr | IntXOr | BoolOr | BoolXOr)` -/
+def isOrXorOp : BinOpType → Bool
+  | .IntOr | .IntXOr | .BoolOr | .BoolXOr => true
+  | _ => false
+/-- `matches!(op, IntAnd | BoolAnd)` -/
+def isAndOp : BinOpType → Bool
+  | .IntAnd | .BoolAnd => true
+  | _ => false
+
 /-- `substitute_and_xor_or_with_constant` -/
 def substAndXorOrWithConstant (e : Expression) : Expression :=
   match e with
   | .BinOp op l r =>
-    let isOrXor := match op with | .IntOr | .IntXOr | .BoolOr | .BoolXOr => true | _ => false
-    let isAnd := match op with | .IntAnd | .BoolAnd => true | _ => false
-    match (if isOrXor then constAndOther isZeroC l r else none) with
+    match (if isOrXorOp op = true then constAndOther isZeroC l r else none) with
     | some (_, _, other) => other                              -- `a or 0 = a`, `a xor 0 = a`
     | none =>
-    match (if isAnd then constAndOther isAllOnesC l r else none) with
+    match (if isAndOp op = true then constAndOther isAllOnesC l r else none) with
     | some (_, _, other) => other                              -- `a and -1 = a`
     | none =>
     match (if op = .BoolAnd then constAndOther isZeroC l r else none) with
